@@ -103,7 +103,11 @@ func List() {
 func EnumPartDebug(prop, tier string, part, parts int) {
 	c := Registry[prop]
 	t0 := time.Now()
-	r := c.EnumPar(tier, part, parts, 0, time.Now().Add(time.Hour), func(int, string) {})
+	r := c.EnumPar(tier, part, parts, 0, time.Now().Add(time.Hour), func(i int, d string) {
+		if os.Getenv("VERIF_VERBOSE") != "" {
+			fmt.Fprintf(os.Stderr, "case %d %s\n", i, d)
+		}
+	})
 	fmt.Printf("evaluations=%d distinct=%d found=%d exhaustive=%v in %v\n", r.Evaluations, r.Distinct, len(r.Found), r.Exhaustive, time.Since(t0))
 	for _, f := range r.Found {
 		fmt.Printf("  %s: %s\n", f.Kind, f.Msg)
